@@ -192,7 +192,12 @@ func (pc *PacketConn) SubscribeUnreachable(doneChan chan struct{}) chan Unreacha
 			if !ok {
 				continue
 			}
-			uChan <- msg
+			select {
+			case uChan <- msg:
+			case <-doneChan:
+				// The subscriber is gone; keep draining until the broker closes iChan.
+			case <-pc.context.Done():
+			}
 		}
 	}()
 
